@@ -87,6 +87,7 @@ func firstStringConst(info *types.Info, e ast.Expr) (string, bool) {
 }
 
 func c04(c *core.Check) {
+	c04CacheOwnership(c)
 	p := c.Prog
 	c.Explain = "Structural necessary conditions of CSS defaulting, decided on the type-checked source: the per-property tables (ids, names, initial values, accessors, inherited set, validators, computers) agree with each other and with CSS 2.1 Appendix F; every value that can enter a style slot has the slot's type; the unit table holds the fixed CSS ratios and length_ covers every unit a validator can emit; the inherit/initial skeleton of cascadeValue and AnonymousStyle.Get; which font size each relative unit is multiplied by (polynomial folding of length_); the root never dereferences its missing parent. Does not decide pending var() paths, caching order or font metrics."
 	c04ComputedUnits(c)
